@@ -10,10 +10,18 @@
    - the pieces are not empty, start at the path's first point, end at its last point and join end to end:
      4k control points whose cubic pieces share their end points (C20_pieces_join);
    - every piece starts and ends on a path point, in path order (C20_knots_are_path_points).
-   Not proved: that the curves stay inside the corridor up to the tolerance, and that the root finder returns every
-   real root and nothing else. These are SEARCHED on the implementation: 400+ pieces sampled per curve against the
-   corridor enlarged by 0.05, and solve3 against polynomials built from chosen roots. Recorded finding
-   `repeated-root`: solve3 drops a repeated real root when rounding makes the discriminant slightly positive. *)
+   The root finder (solve1/solve2/solve3 of spline_solve.go) IN EXACT REAL ARITHMETIC, statement by statement with the
+   zero tests exact (Proofs/RootsReal.v): for every polynomial that is not identically zero it returns every real root
+   and nothing that is not a root — the three cosine values when the discriminant is negative (cos 3t = 4cos^3 t - 3cos t),
+   the single Cardano value when it is positive (the quadratic cofactor is positive), the simple and the double root
+   when it is zero (C20_root_finder_exact). The floating-point code differs by rounding: a repeated root (discriminant
+   exactly 0) is lost when rounding makes the discriminant slightly positive — the recorded finding `repeated-root` —
+   and the tolerance 1e-10 of the zero tests drops a root when a leading coefficient is tiny. These theorems use the
+   standard library's classical real-number axioms (sig_forall_dec, sig_not_dec, functional_extensionality_dep, classic).
+   Not proved: that the fitted curves stay inside the corridor up to the tolerance (Schneider fit, Bernstein evaluation
+   and the containment test on float64). This is SEARCHED on the implementation: pieces sampled densely against the
+   corridor enlarged by 0.05 on random, staircase and zigzag corridors; the containment test on synthetic cubics;
+   solve3 against polynomials built from chosen roots. *)
 From Coq Require Import List Arith.
 From Autog Require Import Base SplineStruct SplineProofs.
 Import ListNotations.
@@ -45,3 +53,18 @@ Theorem C20_knots_are_path_points : forall (P : Type) (tryfit : piece P -> list 
   (exists ks, knots_at path ks ps /\ hd 0%nat ks = 0%nat /\ last ks 0%nat = (length path - 1)%nat).
 Proof. exact fit_spline_knots. Qed.
 Print Assumptions C20_knots_are_path_points.
+
+(* ---------- the root finder in exact real arithmetic (Proofs/RootsReal.v) ---------- *)
+From Coq Require Import Reals.
+From Autog Require RootsReal.
+
+Theorem C20_root_finder_exact : forall (coeff : list R) (x : R),
+  ~ (RootsReal.co coeff 3 = 0 /\ RootsReal.co coeff 2 = 0 /\ RootsReal.co coeff 1 = 0 /\ RootsReal.co coeff 0 = 0)%R ->
+  (In x (RootsReal.vals (RootsReal.solve3 coeff)) <-> RootsReal.poly3 coeff x = 0%R).
+Proof. exact RootsReal.solve3_correct_total. Qed.
+Print Assumptions C20_root_finder_exact.
+
+(* the recorded finding in the exact model: on a repeated root the discriminant is exactly 0 and both roots are returned *)
+Theorem C20_repeated_root_exact : RootsReal.solve3 [-2; -3; 0; 1]%R = Some [2; -1; -1]%R.
+Proof. exact RootsReal.ex_double_values. Qed.
+Print Assumptions C20_repeated_root_exact.
